@@ -98,6 +98,30 @@ func mkCustom() map[string]*CustomOp {
 		}
 		return len(s), nil
 	}})
+	// AND / Or: registered operators whose names are other letter cases of and/or. They are ordinary operators: every
+	// operand is evaluated, then the operator is called (no short-circuit)
+	ops = append(ops, &CustomOp{Name: "AND", Fn: func(a []interface{}) (interface{}, error) {
+		res := true
+		for _, x := range a {
+			b, ok := x.(bool)
+			if !ok {
+				return nil, ErrCustom
+			}
+			res = res && b
+		}
+		return res, nil
+	}})
+	ops = append(ops, &CustomOp{Name: "Or", Fn: func(a []interface{}) (interface{}, error) {
+		res := false
+		for _, x := range a {
+			b, ok := x.(bool)
+			if !ok {
+				return nil, ErrCustom
+			}
+			res = res || b
+		}
+		return res, nil
+	}})
 	// _cid: a registered operator whose name does not start with a letter (zero arguments, like cz)
 	ops = append(ops, &CustomOp{Name: "_cid", Fn: func(a []interface{}) (interface{}, error) {
 		if len(a) != 0 {
@@ -611,6 +635,14 @@ func (g *G) Bool(d int) *Node {
 			pre := "c"
 			if g.Stateless && g.R.Intn(2) == 0 {
 				pre = "s"
+			}
+			if g.R.Intn(6) == 0 {
+				n := 2 + g.R.Intn(3)
+				ch := make([]*Node, n)
+				for i := range ch {
+					ch[i] = g.Bool(d - 1)
+				}
+				return Op([]string{"AND", "Or"}[g.R.Intn(2)], TBool, ch...)
 			}
 			if g.R.Intn(5) == 0 {
 				n := []int{0, 1, 3, 3, 4}[g.R.Intn(5)]
